@@ -17,7 +17,7 @@ if [ "$NOSUITE" != "--no-suite" ]; then
 import json, xml.etree.ElementTree as ET
 b = json.load(open('/root/.vp/BASELINE.json')); stable = set(b['stable_pass']); passed = set()
 for tc in ET.parse('/scratch/seedtest-$PID.xml').getroot().iter('testcase'):
-    if not any(ch.tag in ('failure','error','skipped') for ch in tc): passed.add(tc.get('classname') + '::' + tc.get('name'))
+    if not any(ch.tag in ('failure','error','skipped') for ch in tc): passed.add((tc.get('classname') + '::' + tc.get('name')).replace('$WT', '/repo'))
 missing = sorted(stable - passed)
 print("stable tests passing: %d/%d" % (len(stable & passed), len(stable)), missing[:5])
 PY
